@@ -73,7 +73,7 @@ Loads == [
   \* program output: the blocks the readers look for, rendered in the shape the programs print them
   orcalog |-> << D("atnums"), L("atcoords", "au", 6), L("energy", "au", 12), L("moments.(1,c)", "au", 5), L("extra.scf_energies", "au", 8) >>,
   qchemlog |-> << D("atnums"), L("atcoords", "angstrom", 10), L("energy", "au", 10), L("atcharges.mulliken", "au", 6),
-                  L("extra.nuclear_repulsion_energy", "au", 8), L("mo.energies", "au", 4), D("lot"), D("obasis_name"), D("run_type"),
+                  L("extra.nuclear_repulsion_energy", "au", 8), L("mo.energies", "au", 4), L("mo.occs", "au", 8), D("lot"), D("obasis_name"), D("run_type"),
                   L("athessian", "au", 7) >>,
   wfx |-> << D("atnums"), L("atcoords", "au", 12), L("energy", "au", 12), L("atgradient", "au", 12), D("title"), L("mo.occs", "au", 12),
              L("mo.energies", "au", 8) >>,
